@@ -14,6 +14,7 @@ RULE = (
     "inside and outside the range, kept in general position (no abscissa within 1e-6*range of a vertex); swap_axis both ways) and random polyline pairs for "
     "intersection(). Monitors on calculate_design_conditions and on intersection (both bindings) compare with the harness's own segment arithmetic. "
     "Non-trivial = at least one abscissa crosses the polygon / at least one crossing of the polylines; distinct = (contour seed, steps, swap_axis)."
+    ' Also: contours in units 1e-8..1e6; contours of 4097..13000 vertices.'
 )
 ASSUMPTIONS = [
     "general position is enforced by the generator; tolerance 1e-9 * scale",
